@@ -8,8 +8,11 @@ extra = [a[2:] for a in sys.argv[1:] if a.startswith('--C')]
 def sh(cmd, cwd=None, t=900):
     p = subprocess.run('timeout %d %s' % (t, cmd), shell=True, cwd=cwd, capture_output=True, text=True)
     return p.returncode, p.stdout + p.stderr
-for sid in seeds:
+shard = os.environ.get('KM_SHARD')          # "i/n": every n-th seed, starting with the i-th
+for idx, sid in enumerate(seeds):
     if only and sid not in only:
+        continue
+    if shard and idx % int(shard.split('/')[1]) != int(shard.split('/')[0]):
         continue
     d = '/verif/seeded/' + sid
     meta = json.load(open(d + '/meta.json'))
@@ -24,7 +27,8 @@ for sid in seeds:
         suite_ok = '1149 passed' in out
         open(os.path.join(wt, 'demo_seed.py'), 'w').write(open(d + '/demo.py').read())
         rc_demo, _ = sh('/venv/bin/python demo_seed.py', wt, 300)
-        props = [meta['breaks_property']] + extra
+        # (checks other than the target that caught the change before stay in the run)
+        props = [meta['breaks_property']] + extra + [p for p in meta.get('caught_by', []) if p != meta['breaks_property'] and p not in extra]
         caught = {}
         for p in props:
             rc, out = sh('env PV_REPO=%s /verif/check %s --no-evidence' % (wt, p), None, 900)
